@@ -198,3 +198,18 @@ MANIFEST_TEXT['C15'] = dict(
                'paste-site safety decided by z3, witnesses executed.',
     level_note='Trusted: CrossHair regex model for \\s+, z3 regex theory, Jinja2. Texts longer than the bound are outside the JSON-side claim.')
 _finalise()
+
+PROPS['C16'] = dict(
+    modules=['harness.c16_smiv1'], level='other', files=TOK_FILES,
+    explanation=XH + '. C16: a model-generated SMIv1 module and its SMIv2 transliteration go through the real smiV1 / smiV2 parsers, '
+                'symbol table and both code generators; the contexts must agree; every entry of the SMIv1->SMIv2 import map is exercised by symbolic index.',
+    functions=TOK_FUNCS + ['genImports of SymtableCodeGen / IntermediateCodeGen / PySnmpCodeGen', 'lexer reserved tables'], stubs=TOK_STUBS,
+    bounds='one module: enterprise root, 2 scalars (9 type spellings x 4 access words), TRAP-TYPE with 0..2 variables; arcs from boundary sets',
+    outside=['SMIv1 INDEX { INTEGER } style index types (fake columns: see DESIGN known findings)', 'pysnmp text', 'STATUS value mapping'],
+    assumptions=['the transliteration keeps STATUS words'])
+MANIFEST_TEXT['C16'] = dict(
+    technique='CrossHair symbolic execution of smiV1 vs smiV2 parser + generators on a model module and its transliteration (differential)',
+    level_text='Solver-exhaustive within bounds: all combinations of type spelling, access, variables, name form, declaration order for the modelled '
+               'module shape; all entries of convertImportv2.',
+    level_note='Trusted: CrossHair/z3, PLY. The transliteration function is part of the harness.')
+_finalise()
